@@ -51,6 +51,18 @@ stop_watch Message::_codec_timings(Message::sw__max);
 unsigned MessageBase::_tabsize = defaults::tabsize;
 
 //-------------------------------------------------------------------------------------------------
+namespace
+{
+	/// Convert a decoded tag string. Field numbers are 16 bit; anything larger is reported as 0x10000 (never legal)
+	/// rather than being truncated onto some other field's number.
+	inline unsigned tag_value(const char *tag)
+	{
+		const unsigned val(::strlen(tag) > 5 ? 0x10000 : fast_atoi<unsigned>(tag));
+		return val > 0xffff ? 0x10000 : val;
+	}
+}
+
+//-------------------------------------------------------------------------------------------------
 unsigned MessageBase::extract_header(const f8String& from, char *len, char *mtype)
 {
 	const char *dptr(from.data());
@@ -97,8 +109,9 @@ unsigned MessageBase::decode(const f8String& from, unsigned s_offset, unsigned i
 
 	for (unsigned result; s_offset <= fsize && (result = extract_element(dptr + s_offset, fsize - s_offset, tag, val));)
 	{
-		unsigned short tv(fast_atoi<unsigned short>(tag));
-		Presence::const_iterator itr(_fp.get_presence().find(tv));
+		const unsigned ltv(tag_value(tag));
+		unsigned short tv(static_cast<unsigned short>(ltv));
+		Presence::const_iterator itr(ltv > 0xffff ? _fp.get_presence().end() : _fp.get_presence().find(tv));
 		if (itr == _fp.get_presence().end())
 		{
 unknown_field:
@@ -190,7 +203,12 @@ unsigned MessageBase::decode_group(GroupBase *grpbase, const unsigned short fnum
 
 		for (unsigned pos(0); s_offset < fsize && (result = extract_element(dptr + s_offset, fsize - s_offset, tag, val));)
 		{
-			const unsigned tv(fast_atoi<unsigned>(tag));
+			const unsigned tv(tag_value(tag));
+			if (tv > 0xffff)	// not a field number: end of repeats, the caller deals with it
+			{
+				ok = false;
+				break;
+			}
 			Presence::const_iterator itr(grp->_fp.get_presence().end());
 			if (grp->_fp.get(tv, itr, FieldTrait::present))	// already present; next group?
 				break;
